@@ -459,7 +459,7 @@ distinct = distinct (scenario kind, object count class, key hostility, nesting, 
         "download keys are built from identifiers, so only URL-safe names are downloaded; XML-hostile characters are exercised in listings".into(),
     ];
     ctx.floor_evaluations = 50;
-    let total: u64 = ctx.tier.pick(360, 16_000);
+    let total: u64 = ctx.tier.pick(360, 400_000);
     let big = ctx.tier.pick(256 * 1024, 4 * 1024 * 1024);
     let seed = ctx.seed;
     par_cases(ctx, total, |i, obs| {
